@@ -8,7 +8,7 @@ where such a value is read and proved where it is constructed or stored."""
 import re
 from .absint import last_seg
 from .aisetup import RepoAnalyzer, ASSUMED, MAGIC_FNS
-from . import c15
+from . import c15, witness, validaterules
 
 CAPACITY_BOUND = 256          # the property's statement: the move list holds 256 moves
 UNSAFE_EXT_MODELLED = {"get_unchecked", "get_unchecked_mut", "add", "unreachable_unchecked", "push_unchecked"}
@@ -63,7 +63,8 @@ def run(ctx):
         "pre- and post-conditions, partial helpers decided in every caller's context",
         "U1 every unsafe std operation used is modelled (fail closed); U4 pointer arithmetic occurs only in the magic lookups (bound: C15 "
         "T1-T4, re-run here); U5 an UnsafeMoveList is created only by the five semilegal generators; U6 its capacity is at least %d; "
-        "U7 the fields carrying the invariants are not public" % CAPACITY_BOUND,
+        "U7 the fields carrying the invariants are not public; U8 the validator still enforces the limits the capacity argument rests "
+        "on (at most 16 men per side, exactly one king, no pawns on the back ranks) - rule V1 of C11 re-run" % CAPACITY_BOUND,
     ]
     ctx.not_decided += [
         "A256: that no valid position has more than 256 semilegal moves is a statement about all positions (a counting argument over "
@@ -173,5 +174,8 @@ def run(ctx):
             u7.check(fl[0]["vis"] != "pub", "%s.%s" % (path, fld), "%s.%s is public: safe code can break the invariant the unchecked "
                      "accesses rely on [%s]" % (path, fld, cfg), what="%s.%s is %s [%s]" % (path, fld, fl[0]["vis"], cfg))
     # the offset bound of the magic lookups itself (C15's proof rules) on the current tree
+    validaterules.errors_rule(ctx, ctx.facts("dev"), "U8")
+    witness.cf_rule(ctx, "U7w", ("cf/C19/", "cf/C06/", "cf/C02/private"),
+                    "an external crate cannot read or forge the invariant-carrying fields, and the unchecked operations need `unsafe` (compile-fail witnesses)")
     c15.t2(ctx, ctx.facts("dev"))
     c15.t3(ctx, ctx.facts("dev"))
